@@ -145,8 +145,15 @@ def eval_case(cg, start, n, inject):
     for s in cg["starts"]:
         P.append({"tag": 0, "form": "start", "esym": 0, "exact": False, "unit": False, "syms": [{"k": "sym", "i": 1, "sel": False}],
                   "fail": {"on": False, "s": 1, "m": 1, "r": 0}})
-    return {"id": "%s@%s" % (cg["id"], start), "G": G, "sp": sp[start], "n": n, "inject": inject, "P": P,
+    case = {"id": "%s@%s" % (cg["id"], start), "G": G, "sp": sp[start], "n": n, "inject": inject, "P": P,
             "inl": list(cg.get("inline", []))}
+    if cg.get("cfg"):
+        c = cg["cfg"]
+        case["feats"] = list(cg.get("features", []))
+        case["cfgp"] = [list(c["alt"].get(str(i), [])) + list(c["nt"].get(p["lhs"], [])) for i, p in enumerate(cg["prods"])]
+        case["cfgp"] += [list(c["nt"].get(s, [])) for s in cg["starts"]]   # `__S = S` lives and dies with S
+        case["cfgt"] = [list(c["t"].get(t, [])) for t in G["ts"]]
+    return case
 
 
 def nt_name(cg, nt):
@@ -217,6 +224,18 @@ def render_alt(cg, p):
     return "%s," % body
 
 
+def render_pred(p):
+    if p["k"] == "feature":
+        return 'feature = "%s"' % p["n"]
+    if p["k"] == "not":
+        return "not(%s)" % render_pred(p["a"])
+    return "%s(%s)" % (p["k"], ", ".join(render_pred(x) for x in p["args"]))
+
+
+def cfg_attrs(preds):
+    return "".join("#[cfg(%s)] " % render_pred(p) for p in preds)
+
+
 def render(cg, algo="lane", backend="table"):
     lines = ["use crate::rt::*;", "use crate::kids;"]
     a = ALGOS[algo][0]
@@ -227,21 +246,24 @@ def render(cg, algo="lane", backend="table"):
         lines.append(b)
     gp = cg.get("grammar_param")
     lines.append("grammar%s;" % (("(%s: usize)" % gp) if gp else ""))
-    conv = ", ".join('"%s" => Tok::T%d(<usize>)' % (t, i) for i, t in enumerate(cg["ts"]))
+    cfg = cg.get("cfg") or {"nt": {}, "alt": {}, "t": {}}
+    conv = ", ".join('%s"%s" => Tok::T%d(<usize>)' % (cfg_attrs(cfg["t"].get(t, [])), t, i) for i, t in enumerate(cg["ts"]))
     lines.append("extern { type Location = usize; type Error = UErr; enum Tok { %s } }" % conv)
     for nt in cg["nts"]:
         alts = [p for p in cg["prods"] if p["lhs"] == nt]
         vis = "pub " if nt in cg["starts"] else ""
         if nt in cg.get("inline", []):
             vis = "#[inline] " + vis
+        vis = cfg_attrs(cfg["nt"].get(nt, [])) + vis
         kind = cg["kinds"][nt]
         ty = {"V": ": V", "unit": ": ()", "infer": ""}[kind]
         body = []
         for p in alts:
+            pre = "    " + cfg_attrs(cfg["alt"].get(str(cg["prods"].index(p)), []))
             if p["form"] == "none" and not p["syms"]:
-                body.append("    => (),")  # an empty alternative needs `=>`; `()` is "no code"
+                body.append(pre + "=> (),")  # an empty alternative needs `=>`; `()` is "no code"
             else:
-                body.append("    " + render_alt(cg, p))
+                body.append(pre + render_alt(cg, p))
         lines.append("%s%s%s = {\n%s\n};" % (vis, nt_name(cg, nt), ty, "\n".join(body)))
     return "\n".join(lines) + "\n"
 
